@@ -210,9 +210,10 @@ func TestCases(t *testing.T) {
 				alts := c.Pcts[ps]
 				neg := strings.HasPrefix(ps, "-")
 				if ps == "0" { // p = 0 is neither "lowest" nor "highest": whichever boundary name is used, it is the single value (n = 1)
-					if _, lower := got["lower_0"]; lower {
-						neg = true
-					}
+					_, lower := got["lower_0"]
+					_, upper := got["upper_0"]
+					// when neither is there, the boundary is taken to be the one whose name is disabled (if any is)
+					neg = lower || (!upper && mask.LowerPct)
 				}
 				names := map[string]bool{"count_" + ps: !mask.CountPct, "mean_" + ps: !mask.MeanPct, "sum_" + ps: !mask.SumPct,
 					"sum_squares_" + ps: !mask.SumSquaresPct, "upper_" + ps: !neg && !mask.UpperPct, "lower_" + ps: neg && !mask.LowerPct}
